@@ -987,7 +987,7 @@ def c07_jobs(tier):
     for k in ((2, 3) if quick else (2, 3, 4)):
         J("verif_C07_rprop", [k], max_paths=400)
     for k in ((2, 3) if quick else (2, 3, 4)):
-        J("verif_C07_lineSearch", [k], max_paths=600)
+        J("verif_C07_lineSearch", [k], max_paths=600, bfs=True)
     return jobs
 
 
